@@ -47,6 +47,9 @@ CASE_TIMEOUT = {'quick': 400, 'thorough': 900}
 EXAMPLES = ['Net1.inp', 'Net2.inp', 'Net3.inp']
 
 
+# appended to RULE in the evidence (vlib/runner.py)
+RULE_ADDENDUM = 'Added in rounds 4-5: any start clock time (noon and midnight hours over-weighted), clock-time controls at times the run passes, rules on the time of day (windows across midnight), the default demand pattern; pattern interpolation is switched off (not a common feature).'
+
 def n_cases(tier):
     return 240 if tier == 'quick' else 3200
 
